@@ -626,9 +626,47 @@ def report(ctx, fails):
         ctx.violation(key, what + ' [%d failing cases]' % n, payload)
 
 
+def split_seed_part(ctx, fails):
+    """the splitter itself, at the seeds fit() may hand it (one drawn per partition from range(5000000), so 0 is among them):
+    the parts are a function of (data, n_splits, seed) -- whatever the process-wide numpy generator holds -- and are the
+    documented sequential draws of n // n_splits rows without replacement from RandomState(seed)"""
+    import zepid.causal.doublyrobust.crossfit as cf
+    from numpy.random import RandomState
+    for rep in range(2 if ctx.quick else 8):
+        n = ctx.rng.randint(11, 40)
+        k = ctx.rng.choice([2, 3, 4])
+        data = pd.DataFrame({'rid': list(range(100, 100 + n)), 'x': np.arange(n) * 0.5})
+        if rep % 2:
+            data.index = ['r%02d' % (n - i) for i in range(n)]
+        for seed in (0, np.int64(0), 1, 4999999, np.int64(ctx.rng.randint(2, 4999998))):
+            runs = []
+            for pre in (12345, 54321):
+                np.random.seed(pre)            # the state of the global generator is not an input
+                runs.append([[int(v) for v in part['rid']] for part in cf._sample_split_(data, n_splits=k, random_state=seed)])
+            ref, rest = [], data.copy()
+            for _ in range(k - 1):
+                smp = rest.sample(n=int(n / k), random_state=RandomState(seed))
+                ref.append([int(v) for v in smp['rid']])
+                rest = rest.loc[rest.index.difference(smp.index)]
+            ref.append([int(v) for v in rest['rid']])
+            ctx.evaluations += 1
+            ctx.disagreements_checked += 2
+            ctx.count('splitter called directly with seed %s' % ('0' if int(seed) == 0 else '4999999' if int(seed) == 4999999 else 'other'))
+            ctx.nontriv(['split-seed', n, k, int(seed), type(seed).__name__, rep % 2])
+            pay = {'part': 'split-seed', 'n': n, 'n_splits': k, 'seed': int(seed), 'seed_type': type(seed).__name__}
+            if runs[0] != runs[1]:
+                fails.append((n, '_sample_split_.seed-not-honoured', '_sample_split_(n=%d rows, n_splits=%d, random_state=%r [%s]) returned different parts '
+                              'after np.random.seed(12345) and after np.random.seed(54321): %r vs %r'
+                              % (n, k, int(seed), type(seed).__name__, runs[0][0][:6], runs[1][0][:6]), pay))
+            elif [sorted(p) for p in runs[0]] != [sorted(p) for p in ref]:
+                fails.append((n, '_sample_split_.not-the-documented-draws', '_sample_split_(n=%d rows, n_splits=%d, random_state=%r) parts %r, sequential '
+                              'draws from RandomState(seed) give %r' % (n, k, int(seed), [sorted(p)[:5] for p in runs[0]], [sorted(p)[:5] for p in ref]), pay))
+
+
 def run(ctx):
     fails = []
     check_guards(ctx, guard_specs(ctx), fails)
+    split_seed_part(ctx, fails)
     check_specs(ctx, gen_specs(ctx), fails)
     report(ctx, fails)
 
@@ -639,6 +677,8 @@ def replay(ctx, payload):
         check_guards(ctx, [payload['spec']], fails)
     elif payload and 'spec' in payload:
         check_specs(ctx, [payload['spec']], fails)
+    elif payload and payload.get('part') == 'split-seed':
+        split_seed_part(ctx, fails)
     else:
         run(ctx)
         return
